@@ -377,7 +377,7 @@ impl<P: Payload> PeerCrypto<P> {
         if buffer.is_empty() {
             return Err(Error::InvalidCryptoState("No message in buffer"));
         }
-        if is_init_message(buffer.buffer()) {
+        if is_init_message(buffer.message()) {
             // COLD PATH
             debug!("Received init message");
             buffer.take_prefix();
@@ -444,7 +444,8 @@ impl<P: Payload> PeerCrypto<P> {
 
 pub fn is_init_message(msg: &[u8]) -> bool {
     // HOT PATH
-    !msg.is_empty() && msg[0] == INIT_MESSAGE_FIRST_BYTE
+    // A lone first byte is no init message but the close message (type 0xff, no body) of an unencrypted connection
+    msg.len() > 1 && msg[0] == INIT_MESSAGE_FIRST_BYTE
 }
 
 #[cfg(dswd_vpncloud_verif)]
